@@ -55,6 +55,11 @@ def main : IO Unit := do
   let out ← IO.getStdout
   for ln in lines do
     match tokens ln with
+    | "I" :: "mobfb" :: rest =>     -- FunctionBased mirror: same model as the built-in type (C06 `fbX0_eq_X0`)
+      out.putStrLn ln.trimAscii.toString
+      match parseCase rest with
+      | some c => for l in answerMob c do out.putStrLn l
+      | none => out.putStrLn "O mob ERR"
     | "I" :: "mob" :: rest =>
       out.putStrLn ln.trimAscii.toString
       match parseCase rest with
